@@ -21,55 +21,66 @@ package engine
 
 //@ func addI
 //@   property C07
+//@   terminates
 //@   enc int
 //@   ensures[exact-or-overflow] intResI(x + y, result, err)
 
 //@ func subI
 //@   property C07
+//@   terminates
 //@   enc int
 //@   ensures[exact-or-overflow] intResI(x - y, result, err)
 
 //@ func mulI
 //@   property C07
+//@   terminates
 //@   enc int
 //@   ensures[exact-or-overflow] intResI(x * y, result, err)
 
 //@ func intDivI
 //@   property C07
+//@   terminates
 //@   enc int
 //@   ensures[truncating] divResI(y, tdiv(x, y), result, err)
 
 //@ func remI
 //@   property C07
+//@   terminates
 //@   enc int
 //@   ensures[rem] divResI(y, trem(x, y), result, err)
 
 //@ func modI
 //@   property C07
+//@   terminates
 //@   enc int
 //@   ensures[mod] divResI(y, fmod(x, y), result, err)
 
 //@ func intFloorDivI
 //@   property C07
+//@   terminates
 //@   enc int
 //@   ensures[flooring] divResI(y, fdiv(x, y), result, err)
 
 //@ func negI
 //@   property C07
+//@   terminates
 //@   enc int
 //@   ensures[exact-or-overflow] intResI(-x, result, err)
 
 //@ func absI
 //@   property C07
+//@   terminates
 //@   enc int
 //@   ensures[exact-or-overflow] intResI(ite(x < 0, -x, x), result, err)
 
 //@ func signI
 //@   property C07
+//@   terminates
 //@   ensures[sign] result == sgn(x)
 
 //@ func posI
 //@   property C07
+//@   terminates
 //@   ensures[identity] err == nil && result == x
 
 //@ ---------------------------------------------------------------- float kernels (C07)
@@ -111,203 +122,252 @@ package engine
 
 //@ func addF
 //@   property C07
+//@   terminates
 //@   ensures[ieee] fltRes(x + y, false, result, err)
 
 //@ func subF
 //@   property C07
+//@   terminates
 //@   ensures[ieee] fltRes(x - y, false, result, err)
 
 //@ func mulF
 //@   property C07
+//@   terminates
 //@   ensures[ieee] fltRes(x * y, x != 0.0 && y != 0.0, result, err)
 
 //@ func divF
 //@   property C07
+//@   terminates
 //@   ensures[ieee] divRes(x, y, result, err)
 
 //@ func negF
 //@   property C07
+//@   terminates
 //@   ensures[ieee] same(result, -x)
 
 //@ func absF
 //@   property C07
+//@   terminates
 //@   ensures[ieee] same(result, fp.abs(x))
 
 //@ func signF
 //@   property C07
+//@   terminates
 //@   ensures[sign] (x > 0.0 ==> result == 1.0) && (x < 0.0 ==> result == -1.0) && (x == 0.0 ==> result == 0.0)
 
 //@ func intPartF
 //@   property C07
+//@   terminates
 //@   ensures[truncation] result == fp.rti(RTZ, x)
 //@   ensures[a-negative-number-truncated-to-zero-stays-negative-zero] x != 0.0 ==> same(result, fp.rti(RTZ, x))
 
 //@ func fractPartF
 //@   property C07
+//@   terminates
 //@   ensures[fraction] same(result, x - fp.rti(RTZ, x)) || (result == 0.0 && x - fp.rti(RTZ, x) == 0.0)
 
 //@ func posF
 //@   property C07
+//@   terminates
 //@   ensures[identity] err == nil && same(result, x)
 
 //@ func floatItoF
 //@   property C07
+//@   terminates
 //@   ensures[convert] same(result, f64(n))
 
 //@ func floatFtoF
 //@   property C07
+//@   terminates
 //@   ensures[identity] same(result, x)
 
 //@ func floorFtoI
 //@   property C07
+//@   terminates
 //@   ensures[exact-or-overflow] f2iRes(fp.rti(RTN, x), result, err)
 
 //@ func truncateFtoI
 //@   property C07
+//@   terminates
 //@   ensures[exact-or-overflow] f2iRes(fp.rti(RTZ, x), result, err)
 
 //@ func roundFtoI
 //@   property C07
+//@   terminates
 //@   ensures[exact-or-overflow] f2iRes(fp.rti(RNA, x), result, err)
 
 //@ func ceilingFtoI
 //@   property C07
+//@   terminates
 //@   ensures[exact-or-overflow] f2iRes(fp.rti(RTP, x), result, err)
 
 //@ ---------------------------------------------------------------- mixed-mode kernels (C07)
 
 //@ func addFI
 //@   property C07
+//@   terminates
 //@   ensures[ieee] fltRes(x + f64(n), false, result, err)
 
 //@ func addIF
 //@   property C07
+//@   terminates
 //@   ensures[ieee] fltRes(f64(n) + x, false, result, err)
 
 //@ func subFI
 //@   property C07
+//@   terminates
 //@   ensures[ieee] fltRes(x - f64(n), false, result, err)
 
 //@ func subIF
 //@   property C07
+//@   terminates
 //@   ensures[ieee] fltRes(f64(n) - x, false, result, err)
 
 //@ func mulFI
 //@   property C07
+//@   terminates
 //@   ensures[ieee] fltRes(x * f64(n), x != 0.0 && n != 0, result, err)
 
 //@ func mulIF
 //@   property C07
+//@   terminates
 //@   ensures[ieee] fltRes(f64(n) * x, x != 0.0 && n != 0, result, err)
 
 //@ func divFI
 //@   property C07
+//@   terminates
 //@   ensures[ieee] divRes(x, f64(n), result, err)
 
 //@ func divIF
 //@   property C07
+//@   terminates
 //@   ensures[ieee] divRes(f64(n), x, result, err)
 
 //@ func divII
 //@   property C07
+//@   terminates
 //@   ensures[ieee] divRes(f64(n), f64(m), result, err)
 
 //@ ---------------------------------------------------------------- comparison kernels (C07)
 
 //@ func eqF
 //@   property C07
+//@   terminates
 //@   ensures[numeric] result == (x == y)
 
 //@ func eqI
 //@   property C07
+//@   terminates
 //@   ensures[numeric] result == (m == n)
 
 //@ func eqFI
 //@   property C07
+//@   terminates
 //@   ensures[numeric] result == (x == f64(n))
 
 //@ func eqIF
 //@   property C07
+//@   terminates
 //@   ensures[numeric] result == (f64(n) == y)
 
 //@ func neqF
 //@   property C07
+//@   terminates
 //@   ensures[numeric] result == (x != y)
 
 //@ func neqI
 //@   property C07
+//@   terminates
 //@   ensures[numeric] result == (m != n)
 
 //@ func neqFI
 //@   property C07
+//@   terminates
 //@   ensures[numeric] result == (x != f64(n))
 
 //@ func neqIF
 //@   property C07
+//@   terminates
 //@   ensures[numeric] result == (f64(n) != y)
 
 //@ func lssF
 //@   property C07
+//@   terminates
 //@   ensures[numeric] result == (x < y)
 
 //@ func lssI
 //@   property C07
+//@   terminates
 //@   ensures[numeric] result == (m < n)
 
 //@ func lssFI
 //@   property C07
+//@   terminates
 //@   ensures[numeric] result == (x < f64(n))
 
 //@ func lssIF
 //@   property C07
+//@   terminates
 //@   ensures[numeric] result == (f64(n) < y)
 
 //@ func leqF
 //@   property C07
+//@   terminates
 //@   ensures[numeric] result == (x <= y)
 
 //@ func leqI
 //@   property C07
+//@   terminates
 //@   ensures[numeric] result == (m <= n)
 
 //@ func leqFI
 //@   property C07
+//@   terminates
 //@   ensures[numeric] result == (x <= f64(n))
 
 //@ func leqIF
 //@   property C07
+//@   terminates
 //@   ensures[numeric] result == (f64(n) <= y)
 
 //@ func gtrF
 //@   property C07
+//@   terminates
 //@   ensures[numeric] result == (x > y)
 
 //@ func gtrI
 //@   property C07
+//@   terminates
 //@   ensures[numeric] result == (m > n)
 
 //@ func gtrFI
 //@   property C07
+//@   terminates
 //@   ensures[numeric] result == (x > f64(n))
 
 //@ func gtrIF
 //@   property C07
+//@   terminates
 //@   ensures[numeric] result == (f64(n) > y)
 
 //@ func geqF
 //@   property C07
+//@   terminates
 //@   ensures[numeric] result == (x >= y)
 
 //@ func geqI
 //@   property C07
+//@   terminates
 //@   ensures[numeric] result == (m >= n)
 
 //@ func geqFI
 //@   property C07
+//@   terminates
 //@   ensures[numeric] result == (x >= f64(n))
 
 //@ func geqIF
 //@   property C07
+//@   terminates
 //@   ensures[numeric] result == (f64(n) >= y)
 
 
@@ -324,6 +384,7 @@ package engine
 
 //@ func add
 //@   property C07
+//@   terminates
 //@   modifies nothing
 //@   ensures[II] x is Integer && y is Integer ==> (err == nil ==> result is Integer) && post(addI)(x as Integer, y as Integer, result as Integer, err)
 //@   ensures[IF] x is Integer && y is Float ==> (err == nil ==> result is Float) && post(addIF)(x as Integer, y as Float, result as Float, err)
@@ -332,6 +393,7 @@ package engine
 
 //@ func sub
 //@   property C07
+//@   terminates
 //@   modifies nothing
 //@   ensures[II] x is Integer && y is Integer ==> (err == nil ==> result is Integer) && post(subI)(x as Integer, y as Integer, result as Integer, err)
 //@   ensures[IF] x is Integer && y is Float ==> (err == nil ==> result is Float) && post(subIF)(x as Integer, y as Float, result as Float, err)
@@ -340,6 +402,7 @@ package engine
 
 //@ func mul
 //@   property C07
+//@   terminates
 //@   modifies nothing
 //@   ensures[II] x is Integer && y is Integer ==> (err == nil ==> result is Integer) && post(mulI)(x as Integer, y as Integer, result as Integer, err)
 //@   ensures[IF] x is Integer && y is Float ==> (err == nil ==> result is Float) && post(mulIF)(x as Integer, y as Float, result as Float, err)
@@ -348,6 +411,7 @@ package engine
 
 //@ func div
 //@   property C07
+//@   terminates
 //@   modifies nothing
 //@   ensures[II] x is Integer && y is Integer ==> (err == nil ==> result is Float) && post(divII)(x as Integer, y as Integer, result as Float, err)
 //@   ensures[IF] x is Integer && y is Float ==> (err == nil ==> result is Float) && post(divIF)(x as Integer, y as Float, result as Float, err)
@@ -356,6 +420,7 @@ package engine
 
 //@ func intDiv
 //@   property C07
+//@   terminates
 //@   modifies nothing
 //@   ensures[II] x is Integer && y is Integer ==> (err == nil ==> result is Integer) && post(intDivI)(x as Integer, y as Integer, result as Integer, err)
 //@   ensures[type-x] !(x is Integer) ==> isTypeErr(err, validTypeInteger, x)
@@ -363,6 +428,7 @@ package engine
 
 //@ func rem
 //@   property C07
+//@   terminates
 //@   modifies nothing
 //@   ensures[II] x is Integer && y is Integer ==> (err == nil ==> result is Integer) && post(remI)(x as Integer, y as Integer, result as Integer, err)
 //@   ensures[type-x] !(x is Integer) ==> isTypeErr(err, validTypeInteger, x)
@@ -370,6 +436,7 @@ package engine
 
 //@ func mod
 //@   property C07
+//@   terminates
 //@   modifies nothing
 //@   ensures[II] x is Integer && y is Integer ==> (err == nil ==> result is Integer) && post(modI)(x as Integer, y as Integer, result as Integer, err)
 //@   ensures[type-x] !(x is Integer) ==> isTypeErr(err, validTypeInteger, x)
@@ -377,6 +444,7 @@ package engine
 
 //@ func intFloorDiv
 //@   property C07
+//@   terminates
 //@   modifies nothing
 //@   ensures[II] x is Integer && y is Integer ==> (err == nil ==> result is Integer) && post(intFloorDivI)(x as Integer, y as Integer, result as Integer, err)
 //@   ensures[type-x] !(x is Integer) ==> isTypeErr(err, validTypeInteger, x)
@@ -384,6 +452,7 @@ package engine
 
 //@ func bitwiseAnd
 //@   property C07
+//@   terminates
 //@   modifies nothing
 //@   ensures[II] b1 is Integer && b2 is Integer ==> err == nil && result is Integer && (result as Integer) == ((b1 as Integer) & (b2 as Integer))
 //@   ensures[type-x] !(b1 is Integer) ==> isTypeErr(err, validTypeInteger, b1)
@@ -391,6 +460,7 @@ package engine
 
 //@ func bitwiseOr
 //@   property C07
+//@   terminates
 //@   modifies nothing
 //@   ensures[II] b1 is Integer && b2 is Integer ==> err == nil && result is Integer && (result as Integer) == ((b1 as Integer) | (b2 as Integer))
 //@   ensures[type-x] !(b1 is Integer) ==> isTypeErr(err, validTypeInteger, b1)
@@ -398,6 +468,7 @@ package engine
 
 //@ func xor
 //@   property C07
+//@   terminates
 //@   modifies nothing
 //@   ensures[II] x is Integer && y is Integer ==> err == nil && result is Integer && (result as Integer) == ((x as Integer) ^ (y as Integer))
 //@   ensures[type-x] !(x is Integer) ==> isTypeErr(err, validTypeInteger, x)
@@ -405,12 +476,14 @@ package engine
 
 //@ func bitwiseComplement
 //@   property C07
+//@   terminates
 //@   modifies nothing
 //@   ensures[I] b1 is Integer ==> err == nil && result is Integer && (result as Integer) == ^(b1 as Integer)
 //@   ensures[type] !(b1 is Integer) ==> isTypeErr(err, validTypeInteger, b1)
 
 //@ func bitwiseLeftShift
 //@   property C07
+//@   terminates
 //@   modifies nothing
 //@   ensures[exact] n is Integer && s is Integer && 0 <= (s as Integer) && (s as Integer) <= 63 && inI64(shl(n as Integer, s as Integer))
 //@       ==> err == nil && result is Integer && (result as Integer) == shl(n as Integer, s as Integer)
@@ -419,6 +492,7 @@ package engine
 
 //@ func bitwiseRightShift
 //@   property C07
+//@   terminates
 //@   modifies nothing
 //@   ensures[exact] n is Integer && s is Integer && 0 <= (s as Integer) && (s as Integer) <= 63
 //@       ==> err == nil && result is Integer && shl(result as Integer, s as Integer) <= (n as Integer) && (n as Integer) < shl((result as Integer) + 1, s as Integer)
@@ -427,72 +501,84 @@ package engine
 
 //@ func neg
 //@   property C07
+//@   terminates
 //@   modifies nothing
 //@   ensures[I] x is Integer ==> (err == nil ==> result is Integer) && post(negI)(x as Integer, result as Integer, err)
 //@   ensures[F] x is Float ==> (err == nil ==> result is Float) && err == nil && post(negF)(x as Float, result as Float)
 
 //@ func abs
 //@   property C07
+//@   terminates
 //@   modifies nothing
 //@   ensures[I] x is Integer ==> (err == nil ==> result is Integer) && post(absI)(x as Integer, result as Integer, err)
 //@   ensures[F] x is Float ==> (err == nil ==> result is Float) && err == nil && post(absF)(x as Float, result as Float)
 
 //@ func pos
 //@   property C07
+//@   terminates
 //@   modifies nothing
 //@   ensures[I] x is Integer ==> (err == nil ==> result is Integer) && post(posI)(x as Integer, result as Integer, err)
 //@   ensures[F] x is Float ==> (err == nil ==> result is Float) && post(posF)(x as Float, result as Float, err)
 
 //@ func sign
 //@   property C07
+//@   terminates
 //@   modifies nothing
 //@   ensures[I] x is Integer ==> err == nil && result is Integer && post(signI)(x as Integer, result as Integer)
 //@   ensures[F] x is Float ==> err == nil && result is Float && post(signF)(x as Float, result as Float)
 
 //@ func asFloat
 //@   property C07
+//@   terminates
 //@   modifies nothing
 //@   ensures[I] x is Integer ==> err == nil && result is Float && post(floatItoF)(x as Integer, result as Float)
 //@   ensures[F] x is Float ==> err == nil && result is Float && post(floatFtoF)(x as Float, result as Float)
 
 //@ func floatIntegerPart
 //@   property C07
+//@   terminates
 //@   modifies nothing
 //@   ensures[F] x is Float ==> err == nil && result is Float && post(intPartF)(x as Float, result as Float)
 //@   ensures[type] !(x is Float) ==> isTypeErr(err, validTypeFloat, x)
 
 //@ func floatFractionalPart
 //@   property C07
+//@   terminates
 //@   modifies nothing
 //@   ensures[F] x is Float ==> err == nil && result is Float && post(fractPartF)(x as Float, result as Float)
 //@   ensures[type] !(x is Float) ==> isTypeErr(err, validTypeFloat, x)
 
 //@ func floor
 //@   property C07
+//@   terminates
 //@   modifies nothing
 //@   ensures[F] x is Float ==> (err == nil ==> result is Integer) && post(floorFtoI)(x as Float, result as Integer, err)
 //@   ensures[type] !(x is Float) ==> isTypeErr(err, validTypeFloat, x)
 
 //@ func truncate
 //@   property C07
+//@   terminates
 //@   modifies nothing
 //@   ensures[F] x is Float ==> (err == nil ==> result is Integer) && post(truncateFtoI)(x as Float, result as Integer, err)
 //@   ensures[type] !(x is Float) ==> isTypeErr(err, validTypeFloat, x)
 
 //@ func round
 //@   property C07
+//@   terminates
 //@   modifies nothing
 //@   ensures[F] x is Float ==> (err == nil ==> result is Integer) && post(roundFtoI)(x as Float, result as Integer, err)
 //@   ensures[type] !(x is Float) ==> isTypeErr(err, validTypeFloat, x)
 
 //@ func ceiling
 //@   property C07
+//@   terminates
 //@   modifies nothing
 //@   ensures[F] x is Float ==> (err == nil ==> result is Integer) && post(ceilingFtoI)(x as Float, result as Integer, err)
 //@   ensures[type] !(x is Float) ==> isTypeErr(err, validTypeFloat, x)
 
 //@ func max
 //@   property C07
+//@   terminates
 //@   modifies nothing
 //@   ensures[II] x is Integer && y is Integer ==> err == nil && result == ite((x as Integer) < (y as Integer), y, x)
 //@   ensures[IF] x is Integer && y is Float ==> err == nil && result == ite(f64(x as Integer) < (y as Float), y, x)
@@ -501,6 +587,7 @@ package engine
 
 //@ func min
 //@   property C07
+//@   terminates
 //@   modifies nothing
 //@   ensures[II] x is Integer && y is Integer ==> err == nil && result == ite((x as Integer) > (y as Integer), y, x)
 //@   ensures[IF] x is Integer && y is Float ==> err == nil && result == ite(f64(x as Integer) > (y as Float), y, x)
@@ -510,6 +597,7 @@ package engine
 
 //@ func integerPower
 //@   property C07
+//@   terminates
 //@   bind pw, pwerr = intPow#2
 //@   at-call intPow requires[the-base-given-is-raised] x is Integer && y is Integer && a0 == (x as Integer)
 //@   at-call intPow#2 requires[a-non-negative-exponent-is-passed-on-as-given] (y as Integer) >= 0 && a1 == (y as Integer)
@@ -529,6 +617,7 @@ package engine
 
 //@ func eval
 //@   property C07
+//@   terminates
 //@   assumed-post
 //@   checks only at-call at-call-missing
 //@   nosafety
@@ -547,6 +636,7 @@ package engine
 
 //@ func Is
 //@   property C07
+//@   terminates
 //@   bind v, everr = eval#1
 //@   bind ans = Unify#1
 //@   at-call eval requires[the-expression-is-evaluated-under-the-caller-s-bindings] a0 == param(2) && a1 == param(4)
